@@ -12,6 +12,10 @@ class Gen:
         self.name = name
         self.types = []          # (name, text)
         self.n_anon = 0
+        # tagging environment: mostly AUTOMATIC; otherwise every member carries a context tag, except inline CHOICE members,
+        # which stay untagged (their alternatives are tagged [50+j]) so that decoders must find them through the tag table
+        self.tagging = self.r.choice(["AUTOMATIC", "AUTOMATIC", "AUTOMATIC", "EXPLICIT", "IMPLICIT"])
+        self.choice_base = 0
 
     def ident(self, prefix, i):
         self.n_anon += 1                      # globally unique identifiers: equal member names of nested types clash without -fcompound-names
@@ -25,8 +29,13 @@ class Gen:
         if c < 0.6: return " (%d..%d)" % (-r.choice([1, 8, 128, 129, 32768, 2147483648]), r.choice([0, 7, 127, 128, 32767, 2147483647]))
         if c < 0.7: return " (%d..MAX)" % r.choice([0, 1, -5])
         if c < 0.8: return " (1..%d, ...)" % r.choice([2, 16, 300])
-        if c < 0.9: return " (%d)" % r.choice([0, 5, 1000])
-        return " (MIN..%d)" % r.choice([0, 100])
+        if c < 0.84: return " (%d)" % r.choice([0, 5, 1000])
+        if c < 0.88: return " (MIN..%d)" % r.choice([0, 100])
+        # set arithmetic in which the parentheses matter
+        if c < 0.92: return " ((0..10 | 20..30) ^ (5..25))"
+        if c < 0.95: return " ((1..%d) EXCEPT (3 | 5..6))" % r.choice([10, 50])
+        if c < 0.98: return " (0..100) (10..90)"
+        return " ((-5..-1) | (1..5))"
 
     def size_constraint(self, big=False):
         r = self.r
@@ -92,17 +101,23 @@ class Gen:
                 if in_ext: suffix = " OPTIONAL" if x < 0.7 or kw == "SET" else ""
                 elif d and x < 0.25: suffix = d
                 elif x < 0.55: suffix = " OPTIONAL"
-                parts.append("%s %s%s" % (self.ident("m", i), t, suffix))
+                tag = ""
+                if self.tagging != "AUTOMATIC" and not t.startswith("CHOICE {"): tag = "[%d] " % i
+                parts.append("%s %s%s%s" % (self.ident("m", i), tag, t, suffix))
             if ext_at is not None and ext_at == n: parts.append("...")
             return "%s { %s }" % (kw, ", ".join(parts))
         if k < 6:   # CHOICE
             n = r.randrange(2, 5)
             parts = []
             ext_at = r.randrange(1, n + 1) if r.random() < 0.35 else None
+            base = 50 if depth > 0 else 0
+            if self.tagging != "AUTOMATIC" and depth > 0:
+                self.choice_base += 10; base = 40 + self.choice_base
             for i in range(n):
                 if ext_at is not None and i == ext_at: parts.append("...")
-                t, isref = self.member_type(depth, refs)
-                parts.append("%s %s" % (self.ident("c", i), t))
+                t, isref = self.member_type(2 if self.tagging != "AUTOMATIC" else depth, refs)   # no CHOICE directly inside an untagged CHOICE
+                tag = "[%d] " % (base + i) if self.tagging != "AUTOMATIC" else ""
+                parts.append("%s %s%s" % (self.ident("c", i), tag, t))
             if ext_at is not None and ext_at == n: parts.append("...")
             return "CHOICE { %s }" % ", ".join(parts)
         # SEQUENCE OF / SET OF; the element is never itself an inline SIZE-constrained collection (Appendix B)
@@ -120,8 +135,11 @@ class Gen:
             body = self.constructed(0, refs) if r.random() < 0.8 else self.primitive()
             out.append("  %s ::= %s" % (nm, body))
         # one controlled recursion through OPTIONAL and one through SEQUENCE OF
-        out.append("  %sRec ::= SEQUENCE { v INTEGER (0..7), next %sRec OPTIONAL, tail SEQUENCE (SIZE(0..2)) OF %s }" % (names[0], names[0], names[r.randrange(n)]))
-        return "%s DEFINITIONS AUTOMATIC TAGS ::= BEGIN\n\n%s\n\nEND\n" % (self.name, "\n".join(out))
+        if self.tagging == "AUTOMATIC":
+            out.append("  %sRec ::= SEQUENCE { v INTEGER (0..7), next %sRec OPTIONAL, tail SEQUENCE (SIZE(0..2)) OF %s }" % (names[0], names[0], names[r.randrange(n)]))
+        else:
+            out.append("  %sRec ::= SEQUENCE { v [0] INTEGER (0..7), next [1] %sRec OPTIONAL, tail [2] SEQUENCE (SIZE(0..2)) OF %s }" % (names[0], names[0], names[r.randrange(n)]))
+        return "%s DEFINITIONS %s TAGS ::= BEGIN\n\n%s\n\nEND\n" % (self.name, self.tagging, "\n".join(out))
 
 
 if __name__ == "__main__":
